@@ -766,3 +766,69 @@ def r05_9(cx):
     if nadd == 0 or nreset < 2:
         why = why or 'expected one collecting path and two give-up paths (too many patterns, empty pattern); found %d / %d' % (nadd, nreset)
     cx.report('R05.9', b, 'inert', why is None, 'packed::Builder::add resets the collection only together with inert = true; an inert builder collects nothing' if why is None else why)
+
+
+# ------------------------------------------------------------------------------------------------- R05.10 byte prefilters
+def r05_10(cx):
+    """RareBytesBuilder::build / StartBytesBuilder::build: the bytes handed to the memchr-based prefilter are exactly the bytes
+    that were collected, all of them, each once: the collecting loop stores the byte at bytes[len] and increments len, and a
+    prefilter over k bytes is built from bytes[0..k] exactly when len == k.  A byte that is collected but not searched for lets the
+    prefilter skip true matches."""
+    import re as _re
+    from acverif.sym import Sym, summarize, loop_rows, canon, cstr
+    for path in ('util::prefilter::RareBytesBuilder::build::imp', 'util::prefilter::StartBytesBuilder::build::imp'):
+        b = cx.body(path)
+        why = None
+        loops = list(b.loops())
+        if len(loops) != 1:
+            cx.bad('R05.10', b, 'collected-bytes', 'expected one collecting loop (found %d)' % len(loops))
+            continue
+        h = loops[0]
+        sym = Sym(cx.facts, b)
+        mods, _ = sym.loop_mods(h)
+        arrs = [l for l in mods if _re.match(r'^\[u8; \d+\]$', b.locals[l]['ty'])]
+        if len(arrs) != 1:
+            cx.bad('R05.10', b, 'collected-bytes', 'no single loop-carried byte array')
+            continue
+        ARR = cstr(sym.default_local(arrs[0]))
+        lens = [l for l in mods if b.locals[l]['ty'] == 'usize' and any(cstr(canon(p)) == '%s[%s]' % (ARR, cstr(sym.default_local(l))) for r in loop_rows(cx.facts, b, h) for p, v in r.stores())]
+        if len(lens) != 1:
+            cx.bad('R05.10', b, 'collected-bytes', 'the write cursor of the byte array was not identified')
+            continue
+        LEN = cstr(sym.default_local(lens[0]))
+        n_store = 0
+        for r in loop_rows(cx.facts, b, h):
+            st = [(cstr(canon(p)), cstr(canon(v))) for p, v in r.stores() if cstr(canon(p)).startswith(ARR + '[')]
+            moved = lens[0] in r.env and cstr(canon(r.env[lens[0]])) != LEN
+            if st:
+                n_store += 1
+                item = [cstr(('f', ('dc', canon(c)[1], 'Some'), '0')) for c, v in r.conds if canon(c)[0] == 'discr' and is_call(canon(c)[1], r'Iterator::next$')]
+                if len(st) != 1 or st[0][0] != '%s[%s]' % (ARR, LEN) or not item or st[0][1] != item[0] or cstr(canon(r.env.get(lens[0]))) != 'Add(1, %s)' % LEN:
+                    why = why or 'a collected byte is not stored at bytes[len] with len += 1 (store %s, len -> %s)' % (st, cstr(canon(r.env.get(lens[0]))) if lens[0] in r.env else 'unchanged')
+            elif moved:
+                why = why or 'len changes without a byte being stored'
+        if not n_store:
+            why = why or 'no byte is ever collected'
+        # the prefilters built after the loop
+        ks = set()
+        for r in summarize(cx.facts, b):
+            if r.end != 'return' or not is_agg(r.ret, r'Option$', 'Some'):
+                continue
+            t = canon(r.ret)[3]['0']
+            fin = t[3].get('finder') if is_agg(t, r'Prefilter$') and isinstance(t[3], dict) else None
+            inner = fin[2][0] if fin is not None and is_call(fin, r'Arc(::<.*>)?::new$') and fin[2] else None
+            if inner is None or inner[0] != 'agg' or not isinstance(inner[3], dict):
+                why = why or 'a prefilter of unknown shape is returned'
+                continue
+            bf = sorted((int(k[4:]), cstr(v)) for k, v in inner[3].items() if _re.match(r'^byte\d$', k))
+            k = len(bf)
+            ks.add(k)
+            src = {m.group(1) for i, v in bf for m in [_re.match(r'^(.+)\[(\d+)\]$', v)] if m}
+            if [i for i, v in bf] != list(range(1, k + 1)) or len(src) != 1 or [v for i, v in bf] != ['%s[%d]' % (list(src)[0], i) for i in range(k)] or not _re.match(r'^phi\d+_%d$' % arrs[0], list(src)[0]):
+                why = why or 'the %d-byte prefilter is built from %s (expected bytes[0..%d], each once)' % (k, [v for i, v in bf], k)
+            cnt = [(cstr(canon(c)), v) for c, v in r.conds if canon(c)[0] == 'op' and canon(c)[1] == 'Eq' and canon(c)[2] == ('c', k) and _re.match(r'^phi\d+_%d$' % lens[0], cstr(canon(c)[3]))]
+            if not any(v is True for c, v in cnt):
+                why = why or 'the %d-byte prefilter is not tied to len == %d' % (k, k)
+        if ks != {1, 2, 3}:
+            why = why or 'prefilters are built for %s collected bytes (expected 1, 2 and 3)' % sorted(ks)
+        cx.report('R05.10', b, 'collected-bytes', why is None, 'every collected byte is stored at bytes[len++]; a k-byte prefilter is built from bytes[0..k], each once, exactly when len == k (k = 1, 2, 3)' if why is None else why)
